@@ -39,6 +39,7 @@ func init() {
 		Extras: []core.Extra{
 			{Name: "unpad-exhaustive-small", Run: extraUnpadExhaustive},
 			{Name: "gcm-all-single-bit-flips", Run: extraBitFlips},
+			{Name: "large-inputs", Run: extraLargeInputs},
 		},
 		Assumptions: []string{
 			"AES is a permutation per key (D k (E k x) = x) and GCM Open(Seal(p)) = p: hypotheses of the parametric Lean theorems; the executable Lean AES/GCM instances are validated against FIPS-197 / GCM-spec vectors at build time and against crypto/aes, crypto/cipher on every run",
@@ -94,7 +95,49 @@ func errClass(err error) string {
 	return "err:?" + strings.ReplaceAll(m, " ", "_")
 }
 
-func fill(n int) []byte { return bytes.Repeat([]byte{0xaa}, n) }
+func fill(n int) []byte { return fillWith(n, 0xaa) }
+
+// fillWith returns n bytes of value v with cap = len (an append must not find spare room).
+func fillWith(n int, v byte) []byte {
+	if n < 0 {
+		n = 0
+	}
+	b := bytes.Repeat([]byte{v}, n)
+	return b[:n:n]
+}
+
+// parseLayout: "fresh", "inplace" (documented: dst sized by the library's helper) or
+// "fresh+K", "fresh-K", "inplace+K", "inplace-K": dst K bytes longer / shorter than documented
+// (off contract: compared with the model only).
+func parseLayout(s string) (kind string, d int, ok bool) {
+	kind = s
+	if i := strings.IndexAny(s, "+-"); i >= 0 {
+		kind = s[:i]
+		k, err := strconv.Atoi(s[i+1:])
+		if err != nil || k <= 0 || strings.ContainsAny(s[i+1:], "+-") {
+			return "", 0, false
+		}
+		d = k
+		if s[i] == '-' {
+			d = -k
+		}
+	}
+	if kind != "fresh" && kind != "inplace" {
+		return "", 0, false
+	}
+	return kind, d, true
+}
+
+func offLayout(t []string) bool {
+	if len(t) < 2 {
+		return false
+	}
+	switch t[0] {
+	case "cbcenc", "cbcdec", "gcmenc", "gcmdec":
+		return strings.ContainsAny(t[1], "+-")
+	}
+	return false
+}
 
 // ---------- the real code
 
@@ -208,18 +251,26 @@ func step(t []string) string {
 		key, iv, data := args[2], args[3], args[4]
 		key0, iv0 := append([]byte{}, key...), append([]byte{}, iv...)
 		if t[0] == "cbcenc" {
-			n := cryptz.AESCBCEncryptLen(data)
+			kind, d, ok := parseLayout(t[1])
+			if !ok {
+				return "bad-op"
+			}
+			n := cryptz.AESCBCEncryptLen(data) + d
+			if n < 0 {
+				n = 0
+			}
 			var dst, pt []byte
-			switch t[1] {
+			switch kind {
 			case "fresh":
 				dst, pt = fill(n), append([]byte{}, data...)
 			case "inplace":
 				// "plainText could pre grow padding length, so dst could reuse plainText memory"
+				if n < len(data) {
+					return "bad-op"
+				}
 				buf := fill(n)
 				copy(buf, data)
 				dst, pt = buf, buf[:len(data)]
-			default:
-				return "bad-op"
 			}
 			err := cryptz.AESCBCEncrypt(dst, pt, key, iv)
 			if err != nil {
@@ -228,22 +279,34 @@ func step(t []string) string {
 			if !bytes.Equal(key, key0) || !bytes.Equal(iv, iv0) {
 				return "key-or-iv-modified"
 			}
-			if t[1] == "fresh" && !bytes.Equal(pt, data) {
+			if kind == "fresh" && !bytes.Equal(pt, data) {
 				return "input-modified"
 			}
 			return "ok " + hx(dst)
 		}
+		kind, d, ok := parseLayout(t[1])
+		if !ok || (kind == "inplace" && d != 0) {
+			return "bad-op"
+		}
 		var dst, ct []byte
-		switch t[1] {
+		switch kind {
 		case "fresh":
 			ct = append([]byte{}, data...)
-			dst = fill(cryptz.AESCBCDecryptLen(ct))
+			if d == 0 {
+				dst = fill(cryptz.AESCBCDecryptLen(ct))
+			} else {
+				// off contract: filled with the byte |d| so that a longer dst can end in
+				// something that looks like a padding
+				v := d
+				if v < 0 {
+					v = -v
+				}
+				dst = fillWith(cryptz.AESCBCDecryptLen(ct)+d, byte(v%256))
+			}
 		case "inplace":
 			// "dst could reuse encryptText memory"
 			ct = append([]byte{}, data...)
 			dst = ct
-		default:
-			return "bad-op"
 		}
 		n, err := cryptz.AESCBCDecrypt(dst, ct, key, iv)
 		if err != nil {
@@ -252,7 +315,7 @@ func step(t []string) string {
 		if !bytes.Equal(key, key0) || !bytes.Equal(iv, iv0) {
 			return "key-or-iv-modified"
 		}
-		if t[1] == "fresh" && !bytes.Equal(ct, data) {
+		if kind == "fresh" && !bytes.Equal(ct, data) {
 			return "input-modified"
 		}
 		return fmt.Sprintf("ok %d %s", n, hx(dst))
@@ -269,9 +332,13 @@ func step(t []string) string {
 		}
 		key, nonce, ad, data := args[2], args[3], args[4], args[5]
 		if t[0] == "gcmenc" {
-			n := cryptz.AESGCMEncryptLen(data)
+			kind, d, ok := parseLayout(t[1])
+			if !ok || (kind == "inplace" && d != 0) {
+				return "bad-op"
+			}
+			n := cryptz.AESGCMEncryptLen(data) + d
 			var dst, pt []byte
-			switch t[1] {
+			switch kind {
 			case "fresh":
 				dst, pt = fill(n), append([]byte{}, data...)
 			case "inplace":
@@ -279,8 +346,6 @@ func step(t []string) string {
 				buf := fill(n)
 				copy(buf, data)
 				dst, pt = buf, buf[:len(data)]
-			default:
-				return "bad-op"
 			}
 			err := cryptz.AESGCMEncrypt(dst, pt, key, nonce, ad)
 			if err != nil {
@@ -293,15 +358,17 @@ func step(t []string) string {
 		if n < 0 {
 			n = 0
 		}
+		kind, d, ok := parseLayout(t[1])
+		if !ok || (kind == "inplace" && d != 0) {
+			return "bad-op"
+		}
 		var dst []byte
-		switch t[1] {
+		switch kind {
 		case "fresh":
-			dst = fill(n)
+			dst = fill(n + d)
 		case "inplace":
 			// "dst could reuse encryptText memory, like encryptText[:AESGCMDecryptLen(encryptText)]"
 			dst = ct[:n]
-		default:
-			return "bad-op"
 		}
 		err := cryptz.AESGCMDecrypt(dst, ct, key, nonce, ad)
 		if err != nil {
@@ -365,6 +432,12 @@ func check(c core.Case, out []string) *core.Failure {
 		}
 		if o == "panic" && !offContract {
 			return bad(t[0]+"-panic", "a panic is never allowed")
+		}
+		if offLayout(t) {
+			if !offContract {
+				return bad("harness-off-contract-layout", "off-contract dst sizes belong in cases tagged offcontract")
+			}
+			continue // dst longer / shorter than documented: judged against the model only
 		}
 		if o == "input-modified" || o == "key-or-iv-modified" || strings.HasPrefix(o, "instantiations-differ") {
 			return bad(t[0]+"-side-effect", "inputs must not be modified / string and []byte instantiations agree")
